@@ -134,10 +134,21 @@ def event_dict(e, jobhash=True):
     return d
 
 
+def _peer_list(v):
+    """peers of an exported slice: absent, one int / numeric string, a comma separated string or a list"""
+    if v is None:
+        return []
+    if isinstance(v, (list, tuple)):
+        return [int(x) for x in v]
+    if isinstance(v, str):
+        return [int(x) for x in v.split(",")]
+    return [int(v)]
+
+
 def canon_peers(v):
     if v is None:
         return None
-    return sorted({int(p) for p in v})
+    return sorted(set(_peer_list(v)))
 
 
 def project(d):
@@ -421,18 +432,19 @@ def oracle_e2e(sc, res):
         m = ms[0]
         start = min(p["ts"] for p in ps)
         end = max(p["ts"] + p["dur"] for p in ps)
-        peers = sorted({int(p["args"]["Peer"]) for p in ps if "Peer" in p["args"]})
+        # with --flow a later stage renames each part's "Peer" to "Peers" in the reference run as well
+        peers = sorted({q for p in ps for q in _peer_list(p["args"].get("Peer", p["args"].get("Peers")))})
         if m["ts"] != start:
             return dict(kind="hull_start_wrong", group=[k, g], expected=start, observed=m["ts"], **facts)
         if m["ts"] + m["dur"] != end:
             return dict(kind="hull_end_wrong", group=[k, g], expected=end, observed=m["ts"] + m["dur"], **facts)
-        if canon_peers(m["args"].get("Peers")) != peers:
+        if sorted(set(_peer_list(m["args"].get("Peers")))) != peers:
             return dict(kind="peers_not_union", group=[k, g], expected=peers,
-                        observed=canon_peers(m["args"].get("Peers")), **facts)
+                        observed=sorted(set(_peer_list(m["args"].get("Peers")))), **facts)
         ref = [p for p in ps if p["args"]["uid"] == m["args"]["uid"]][0]
         if (m["pid"], m["tid"]) != (ref["pid"], ref["tid"]) or \
-                {x: y for x, y in m["args"].items() if x != "Peers"} != \
-                {x: y for x, y in ref["args"].items() if x != "Peers"}:
+                {x: y for x, y in m["args"].items() if x not in ("Peers", "Peer")} != \
+                {x: y for x, y in ref["args"].items() if x not in ("Peers", "Peer")}:
             return dict(kind="merged_slice_lost_identity_of_its_part", group=[k, g], **facts)
     return None
 
@@ -556,7 +568,8 @@ def gen_e2e(r):
     if not files:
         files.append({"pid": 0, "events": [{"uid": uid, "ph": "X", "name": "SenRdma_1", "job": -1, "pid": 0, "tid": 1,
                                             "ts": 1.0, "dur": 1.0, "peer": ["none"], "peers": None}]})
-    return {"kind": "e2e", "files": files, "opts": []}
+    # the property quantifies over runs "with --comm_summarize_seq": other options may be on as well
+    return {"kind": "e2e", "files": files, "opts": r.choice([[], [], ["--flow"], ["--keep_names"]])}
 
 
 def adversarial_names():
